@@ -960,4 +960,505 @@ Proof.
         apply filter_In in Hx as [Hx _]. specialize (Hv (m_view_refs m) x Hx). destruct x; cbn [vfd_val fd_refs]; auto.
 Qed.
 
+(* ---- bv_members: member names are used once, unique constraints name existing fields ---- *)
+Hypothesis Hlex : lexical a = true.
+Hypothesis Hcoll : no_unique_collision a m = true.
+
+Definition fnames (its : list titem) : list string :=
+  flat_map (fun it => match it with TField f => [f_name f] | TRef n _ _ => [n] | _ => [] end) its.
+Definition ctnames (its : list titem) : list string :=
+  flat_map (fun it => match it with TNested c _ => [c] | _ => [] end) its.
+
+Lemma flat_map_flat {A B C} (f : B -> list C) (g : A -> list B) l :
+  flat_map f (flat_map g l) = flat_map (fun x => flat_map f (g x)) l.
+Proof. induction l; cbn; auto. rewrite flat_map_app, IHl. auto. Qed.
+
+Lemma NoDup_app_l {A} (l1 l2 : list A) : NoDup (l1 ++ l2) -> NoDup l1.
+Proof.
+  induction l1 as [|x r IH]; cbn; intros H; [constructor|]. inversion H as [|? ? Hn Hr]; subst.
+  constructor; [intros Hin; apply Hn; apply in_app_iff; auto | auto].
+Qed.
+
+Lemma NoDup_flat_sub {A B} (f g : A -> list B) l :
+  (forall x, g x = f x \/ g x = []) -> NoDup (flat_map f l) -> NoDup (flat_map g l).
+Proof.
+  intros Hs. assert (Hin : forall r y, In y (flat_map g r) -> In y (flat_map f r)).
+  { induction r as [|x r IH]; cbn; intros y Hy; auto. apply in_app_iff in Hy as [Hy | Hy]; apply in_app_iff.
+    - destruct (Hs x) as [E | E]; rewrite E in Hy; [auto | destruct Hy].
+    - auto. }
+  induction l as [|x r IH]; cbn; intros Hn; [constructor|].
+  pose proof (NoDup_app_r _ _ Hn) as Hr. specialize (IH Hr).
+  destruct (Hs x) as [E | E]; rewrite E; [|exact IH].
+  clear E. revert Hn. induction (f x) as [|z zs IHz]; cbn; intros Hn; auto.
+  inversion Hn as [|? ? Hnot Hn']; subst. constructor; [|auto].
+  intros Hz. apply Hnot. apply in_app_iff in Hz as [Hz | Hz]; apply in_app_iff; auto.
+Qed.
+
+Lemma fnames_fields l : map fd_name (fields_of l) = fnames (snd l).
+Proof. apply fields_of_names. Qed.
+
+Lemma ctnames_conts l : map cd_name (conts_of l) = ctnames (snd l).
+Proof.
+  unfold conts_of, ctnames. induction (snd l) as [|it r IH]; cbn; auto. rewrite map_app, IH. f_equal. destruct it; reflexivity.
+Qed.
+
+Lemma lists_fnames_nodup ls :
+  NoDup (flat_map (fun l : ilist => titem_names (snd l)) ls) -> NoDup (flat_map (fun l : ilist => fnames (snd l)) ls).
+Proof.
+  intros Hn. unfold titem_names in Hn. unfold fnames. rewrite <- flat_map_flat in *.
+  eapply NoDup_flat_sub; [|exact Hn]. intros it. destruct it; auto.
+Qed.
+
+Lemma lists_ctnames_nodup ls :
+  NoDup (flat_map (fun l : ilist => titem_names (snd l)) ls) -> NoDup (flat_map (fun l : ilist => ctnames (snd l)) ls).
+Proof.
+  intros Hn. unfold titem_names in Hn. unfold ctnames. rewrite <- flat_map_flat in *.
+  eapply NoDup_flat_sub; [|exact Hn]. intros it. destruct it; auto.
+Qed.
+
+Lemma NoDup_app_intro {A} (l1 l2 : list A) :
+  NoDup l1 -> NoDup l2 -> (forall x, In x l1 -> In x l2 -> False) -> NoDup (l1 ++ l2).
+Proof.
+  induction l1 as [|x r IH]; cbn; intros H1 H2 Hd; auto. inversion H1 as [|? ? Hn Hr]; subst. constructor.
+  - intros Hin. apply in_app_iff in Hin as [Hin | Hin]; [auto | eapply Hd; eauto].
+  - apply IH; auto. intros y Hy1 Hy2. eapply Hd; eauto.
+Qed.
+
+Lemma sys_name_not_lex n k : In n (map fd_name (sys_fields k)) -> lex_ident n = false.
+Proof. destruct k; cbn; intros H; repeat (destruct H as [<- | H]; [reflexivity|]); destruct H. Qed.
+
+Lemma sys_names_nodup k : NoDup (map fd_name (sys_fields k)).
+Proof. apply nodup_s_NoDup. destruct k; reflexivity. Qed.
+
+(* the lexer's guarantee, table by table *)
+Fixpoint titems_lex (its : list titem) : bool :=
+  match its with
+  | [] => true
+  | it :: r =>
+    match it with
+    | TField f => field_lex f
+    | TRef fn _ _ => lex_ident fn
+    | TNested c t' => lex_ident c && table_lex t'
+    | TUnique cn fs => match cn with Some c => lex_ident c | None => true end
+    end && titems_lex r
+  end.
+
+Lemma table_lex_eq t : table_lex t = lex_ident (t_name t) && titems_lex (t_items t).
+Proof. destruct t; reflexivity. Qed.
+
+Lemma titems_lex_cons it r : titems_lex (it :: r) = true ->
+  titems_lex r = true /\
+  match it with
+  | TField f => lex_ident (f_name f) = true
+  | TRef fn _ _ => lex_ident fn = true
+  | TNested c t' => lex_ident c = true /\ table_lex t' = true
+  | TUnique (Some c) _ => lex_ident c = true
+  | TUnique None _ => True
+  end.
+Proof.
+  cbn [titems_lex]. intros H. apply andb_true_iff in H as [Hit Hr]. split; auto.
+  destruct it as [f | n refs nn | c t' | [cn|] fs]; auto. apply andb_true_iff in Hit. auto.
+Qed.
+
+Lemma titems_lex_facts its : titems_lex its = true ->
+  (forall n, In n (fnames its) -> lex_ident n = true) /\ (forall n, In n (ctnames its) -> lex_ident n = true)
+  /\ (forall c t', In (TNested c t') its -> table_lex t' = true)
+  /\ (forall c fs, In (TUnique (Some c) fs) its -> lex_ident c = true).
+Proof.
+  induction its as [|it r IH]; intros H.
+  - repeat split; intros; cbn in *; tauto.
+  - destruct (titems_lex_cons _ _ H) as [Hr Hit]. destruct (IH Hr) as (I1 & I2 & I3 & I4).
+    split; [|split; [|split]].
+    + intros n Hn. cbn [fnames flat_map] in Hn. apply in_app_iff in Hn as [Hn | Hn]; [|apply I1; auto].
+      destruct it as [f | fn refs nn | c t' | cn fs]; cbn in Hn; try tauto; destruct Hn as [<- | []]; auto.
+    + intros n Hn. cbn [ctnames flat_map] in Hn. apply in_app_iff in Hn as [Hn | Hn]; [|apply I2; auto].
+      destruct it as [f | fn refs nn | c t' | cn fs]; cbn in Hn; try tauto. destruct Hn as [<- | []]. tauto.
+    + intros c t' [E | Hin]; [|eapply I3; eauto]. subst it. tauto.
+    + intros c fs [E | Hin]; [|eapply I4; eauto]. subst it. auto.
+Qed.
+
+Lemma table_lex_nested T t' : table_lex T = true -> Nested T t' -> table_lex t' = true.
+Proof.
+  intros H HN. induction HN as [t c t' Hin | t c t1 t' Hin HN IH].
+  - rewrite table_lex_eq in H. apply andb_true_iff in H as [_ H]. eapply (titems_lex_facts _ H); eauto.
+  - apply IH. rewrite table_lex_eq in H. apply andb_true_iff in H as [_ H]. eapply (titems_lex_facts _ H); eauto.
+Qed.
+
+Lemma ws_lex_in p' w' : In (p', w') (all_ws a) -> ws_lex w' = true /\ lex_ident (p_name p') = true.
+Proof.
+  intros H. apply in_all_ws in H as [Hp Hw]. unfold lexical in Hlex. rewrite forallb_forall in Hlex.
+  specialize (Hlex _ Hp). apply andb_true_iff in Hlex as [Hn Hws]. rewrite forallb_forall in Hws. auto.
+Qed.
+
+Lemma wsitem_lex_in p' w' i : In (p', w') (all_ws a) -> In i (w_items w') -> wsitem_lex i = true.
+Proof.
+  intros Hpw Hi. destruct (ws_lex_in p' w' Hpw) as [H _]. unfold ws_lex in H. rewrite !andb_true_iff in H.
+  destruct H as [[_ H] _]. rewrite forallb_forall in H. auto.
+Qed.
+
+Lemma declared_table_lex l k : Declared l k -> titems_lex (snd l) = true.
+Proof.
+  intros (p' & w' & T & b & lsT & Hpw & Hi & _ & Hl). pose proof (wsitem_lex_in p' w' _ Hpw Hi) as HT. cbn in HT.
+  destruct Hl as [[-> _] | (t' & Ht' & -> & _)]; cbn [snd].
+  - rewrite table_lex_eq in HT. apply andb_true_iff in HT as [_ HT]. auto.
+  - apply nested_tables_Nested in Ht'. pose proof (table_lex_nested _ _ HT Ht') as H.
+    rewrite table_lex_eq in H. apply andb_true_iff in H as [_ H]. auto.
+Qed.
+
+Lemma declared_uniques l k : Declared l k -> uniques_ok [] [] (snd l) = true.
+Proof.
+  intros (p' & w' & T & b & lsT & Hpw & Hi & Ec & Hl).
+  destruct (table_ok_parts p' w' T Hpw Hi) as (b0 & ls0 & Ec0 & _ & Hitems & Hn). rewrite Ec in Ec0. inversion Ec0; subst b0 ls0.
+  destruct Hl as [[-> _] | (t' & Ht' & -> & _)]; cbn [snd].
+  - unfold items_ok in Hitems. rewrite !andb_true_iff in Hitems. tauto.
+  - rewrite forallb_forall in Hn. specialize (Hn t' Ht'). unfold nested_ok in Hn. rewrite !andb_true_iff in Hn.
+    destruct Hn as [[_ Hit] _]. unfold items_ok in Hit. rewrite !andb_true_iff in Hit. tauto.
+Qed.
+
+Lemma uniques_ok_facts its : forall seen used, uniques_ok seen used its = true ->
+  forall cn fs, In (TUnique cn fs) its -> NoDup fs /\ forall x, In x fs -> In x seen \/ In x (fnames its).
+Proof.
+  induction its as [|it r IH]; intros seen used H cn fs Hin; [destruct Hin|].
+  destruct it as [f | n refs nn | c t' | cn0 fs0]; cbn [uniques_ok] in H; cbn [fnames flat_map app].
+  - destruct Hin as [E | Hin]; [discriminate|]. destruct (IH _ _ H _ _ Hin) as [Hn Hx]. split; auto.
+    intros x Hxf. destruct (Hx x Hxf) as [[<- | Hs] | Hf]; cbn; auto.
+  - destruct Hin as [E | Hin]; [discriminate|]. destruct (IH _ _ H _ _ Hin) as [Hn Hx]. split; auto.
+    intros x Hxf. destruct (Hx x Hxf) as [[<- | Hs] | Hf]; cbn; auto.
+  - destruct Hin as [E | Hin]; [discriminate|]. apply (IH _ _ H _ _ Hin).
+  - rewrite !andb_true_iff in H. destruct H as [[[_ Hnd] Hall] Hr]. destruct Hin as [E | Hin].
+    + inversion E; subst. split; [apply nodup_s_NoDup; auto|]. intros x Hx. rewrite forallb_forall in Hall.
+      specialize (Hall x Hx). apply andb_true_iff in Hall as [Hs _]. apply mem_s_In in Hs. auto.
+    + apply (IH _ _ Hr _ _ Hin).
+Qed.
+
+Lemma uniqs_from_in its : forall c u, In u (uniqs_from c its) -> exists cn, In (TUnique cn (ud_fields u)) its.
+Proof.
+  induction its as [|it r IH]; intros c u H; [destruct H|].
+  destruct it as [f | n refs nn | c0 t' | [cn|] fs]; cbn [uniqs_from] in H;
+    try (destruct (IH _ _ H) as (cn' & Hc); exists cn'; right; auto; fail).
+  - destruct H as [<- | H]; [exists (Some cn); left; auto | destruct (IH _ _ H) as (cn' & Hc); exists cn'; right; auto].
+  - destruct H as [<- | H]; [exists None; left; auto | destruct (IH _ _ H) as (cn' & Hc); exists cn'; right; auto].
+Qed.
+
+Lemma uniqs_run_in ls : forall c u, In u (uniqs_run c ls) -> exists l cn, In l ls /\ In (TUnique cn (ud_fields u)) (snd l).
+Proof.
+  induction ls as [|l r IH]; intros c u H; [destruct H|]. cbn [uniqs_run] in H. apply in_app_iff in H as [H | H].
+  - destruct (uniqs_from_in _ _ _ H) as (cn & Hc). exists l, cn. split; [left; auto | auto].
+  - destruct (IH _ _ H) as (l' & cn & Hl & Hc). exists l', cn. split; [right; auto | auto].
+Qed.
+
+Lemma uniqs_chain_in ls u : In u (uniqs_chain m ls) -> exists l cn, In l ls /\ In (TUnique cn (ud_fields u)) (snd l).
+Proof.
+  unfold uniqs_chain. destruct (m_uniq_per_type m); [apply uniqs_run_in|]. intros H.
+  apply in_flat_map in H as (l & Hl & H). destruct (uniqs_from_in _ _ _ H) as (cn & Hc). eauto.
+Qed.
+
+Lemma struct_members_ok pn wq t k sg ls :
+  (forall l, In l ls -> Declared l k) -> NoDup (flat_map (fun l : ilist => titem_names (snd l)) ls) ->
+  In (struct_item m pn wq t k sg ls) d -> bv_members_item (struct_item m pn wq t k sg ls) = true.
+Proof.
+  intros Hd Hn Hin. unfold struct_item, bv_members_item.
+  assert (Hf : map fd_name (flat_map fields_of ls) = flat_map (fun l : ilist => fnames (snd l)) ls).
+  { rewrite map_flat_map'. apply flat_map_ext_in. intros l _. apply fnames_fields. }
+  assert (Hlexf : forall n, In n (flat_map (fun l : ilist => fnames (snd l)) ls) -> lex_ident n = true).
+  { intros n H. apply in_flat_map in H as (l & Hl & H). destruct (titems_lex_facts _ (declared_table_lex l k (Hd l Hl))) as (I1 & _). apply I1; auto. }
+  rewrite !andb_true_iff. repeat split.
+  - apply NoDup_nodup_s. rewrite map_app, Hf. apply NoDup_app_intro; [apply sys_names_nodup | apply lists_fnames_nodup; auto|].
+    intros x H1 H2. apply sys_name_not_lex in H1. rewrite (Hlexf x H2) in H1. discriminate.
+  - apply NoDup_nodup_s. rewrite map_flat_map'.
+    replace (flat_map (fun x => map cd_name (conts_of x)) ls) with (flat_map (fun l : ilist => ctnames (snd l)) ls)
+      by (apply flat_map_ext_in; intros l _; symmetry; apply ctnames_conts).
+    apply lists_ctnames_nodup; auto.
+  - unfold no_unique_collision in Hcoll. rewrite forallb_forall in Hcoll. apply (Hcoll _ Hin).
+  - apply forallb_forall. intros u Hu. destruct (uniqs_chain_in _ _ Hu) as (l & cn & Hl & Hc).
+    destruct (uniques_ok_facts _ _ _ (declared_uniques l k (Hd l Hl)) _ _ Hc) as [Hnd Hsub].
+    rewrite (NoDup_nodup_s _ Hnd). cbn [andb]. unfold subset_s. apply forallb_forall. intros x Hx. apply mem_s_In.
+    rewrite map_app, Hf. apply in_app_iff. right. destruct (Hsub x Hx) as [[] | Hxf]. apply in_flat_map. eauto.
+Qed.
+
+Lemma fd_of_field_name f : fd_name (fd_of_field f) = f_name f.
+Proof. unfold fd_of_field. destruct (f_type f); reflexivity. Qed.
+
+Lemma chain_lists_nodup pn ls : chain_lists_ok pn ls = true -> NoDup (flat_map (fun l : ilist => titem_names (snd l)) ls).
+Proof. unfold chain_lists_ok. intros H. apply andb_true_iff in H as [H _]. apply nodup_s_NoDup; auto. Qed.
+
+Lemma nested_lists_nodup p w t b ls t' : In (p, w) (all_ws a) -> In (ITable t) (w_items w) ->
+  chain a (fuel0 a) (p_name p) t = Some (b, ls) -> In t' (nested_tables t) ->
+  NoDup (flat_map (fun l : ilist => titem_names (snd l)) (nested_lists a m (p_name p) t')).
+Proof.
+  intros Hpw Hi Ec Ht'. destruct (table_ok_parts p w t Hpw Hi) as (b0 & ls0 & Ec0 & _ & _ & Hn). rewrite Ec in Ec0. inversion Ec0; subst b0 ls0.
+  rewrite forallb_forall in Hn. specialize (Hn t' Ht'). unfold nested_ok in Hn. rewrite !andb_true_iff in Hn.
+  destruct Hn as [[[_ Hinh] _] Hown].
+  assert (Ho : NoDup (flat_map (fun l : ilist => titem_names (snd l)) [(p_name p, t_items t')])).
+  { cbn. rewrite app_nil_r. apply nodup_s_NoDup; auto. }
+  unfold nested_lists. destruct (t_inh t') as [q|]; auto. destruct (m_nested_inherit m); auto.
+  destruct (chain a (fuel0 a) (p_name p) t') as [[b' ls']|]; auto.
+  rewrite !andb_true_iff in Hinh. destruct Hinh as [_ [_ Hc]]. apply chain_lists_nodup in Hc. auto.
+Qed.
+
+Lemma view_key_names keep pn part (v : view) l :
+  forallb (fun n => match find_vitem v n with Some _ => true | None => false end) l = true ->
+  map fd_name (flat_map (fun n => map (vfd_key keep pn part) (opt_list (find_vitem v n))) l) = l.
+Proof.
+  induction l as [|n r IH]; cbn [forallb flat_map]; intros H; auto. apply andb_true_iff in H as [Hn Hr].
+  unfold find_vitem in *. destruct (find (fun i => vitem_name i =? n)%string (v_items v)) as [i|] eqn:Ef; [|discriminate].
+  apply find_some in Ef as [_ E]. apply String.eqb_eq in E. cbn [opt_list map app]. rewrite IH by auto. f_equal.
+  destruct i; cbn in *; auto.
+Qed.
+
+Lemma found_weaken (v : view) (P : vitem -> bool) l :
+  forallb (fun n => match find_vitem v n with Some i => P i | None => false end) l = true ->
+  forallb (fun n => match find_vitem v n with Some _ => true | None => false end) l = true.
+Proof. intros H. rewrite forallb_forall in *. intros n Hn. specialize (H n Hn). destruct (find_vitem v n); auto. Qed.
+
+Lemma found_is_item (v : view) l : forallb (fun n => match find_vitem v n with Some _ => true | None => false end) l = true ->
+  forall n, In n l -> In n (map vitem_name (v_items v)).
+Proof.
+  intros H n Hn. rewrite forallb_forall in H. specialize (H n Hn). unfold find_vitem in H.
+  destruct (find (fun i => vitem_name i =? n)%string (v_items v)) as [i|] eqn:Ef; [|discriminate].
+  apply find_some in Ef as [Hi E]. apply String.eqb_eq in E. subst. apply in_map; auto.
+Qed.
+
+Lemma vfd_val_name keep pn i : fd_name (vfd_val keep pn i) = vitem_name i.
+Proof. destruct i; reflexivity. Qed.
+
+Lemma NoDup_map_filter {A B} (f : A -> B) (P : A -> bool) l : NoDup (map f l) -> NoDup (map f (filter P l)).
+Proof.
+  induction l as [|x r IH]; cbn; intros H; auto. inversion H as [|? ? Hn Hr]; subst.
+  destruct (P x); cbn; auto. constructor; auto. intros Hin. apply Hn. apply in_map_iff in Hin as (y & E & Hy).
+  apply filter_In in Hy as [Hy _]. rewrite <- E. apply in_map; auto.
+Qed.
+
+Theorem bv_members_proved : bv_members d = true.
+Proof.
+  unfold bv_members. apply forall_compiled.
+  - reflexivity.
+  - intros p w Hpw Hab. unfold desc_item, bv_members_item. cbn [map nodup_b forallb]. rewrite !andb_true_r.
+    pose proof (wf_ws_ok a Hwf p w (proj1 (in_all_ws a p w) Hpw)) as Hok. unfold ws_ok in Hok. rewrite !andb_true_iff in Hok.
+    destruct Hok as [[[_ Hdesc] _] _]. destruct (ws_lex_in p w Hpw) as [Hwl _]. unfold ws_lex in Hwl. apply andb_true_iff in Hwl as [_ Hdl].
+    apply NoDup_nodup_s. rewrite map_app, map_map.
+    replace (map (fun x => fd_name (fd_of_field x)) (match w_desc w with Some l => l | None => [] end))
+      with (map f_name (match w_desc w with Some l => l | None => [] end)) by (apply map_ext; intros; symmetry; apply fd_of_field_name).
+    apply NoDup_app_intro; [apply sys_names_nodup | |].
+    + destruct (w_desc w); [|constructor]. apply andb_true_iff in Hdesc as [_ Hd]. apply nodup_s_NoDup; auto.
+    + intros x H1 H2. apply sys_name_not_lex in H1. destruct (w_desc w) as [fs|]; [|destruct H2].
+      apply in_map_iff in H2 as (f & <- & Hf). rewrite forallb_forall in Hdl. specialize (Hdl f Hf). unfold field_lex in Hdl. congruence.
+  - intros p w i it Hpw Hi Hin. pose proof Hin as Hin0. destruct (stmt_cases _ _ _ _ Hin); try reflexivity.
+    + destruct (table_ok_parts p w t Hpw Hi) as (b0 & ls0 & Ec0 & Hcl & _ & _). rewrite H in Ec0. inversion Ec0; subst b0 ls0.
+      apply struct_members_ok; [eapply lists_declared_root; eauto | apply chain_lists_nodup in Hcl; auto | eapply in_compiled_stmt; eauto].
+    + apply struct_members_ok; [eapply lists_declared_nested; eauto | eapply nested_lists_nodup; eauto | eapply in_compiled_stmt; eauto].
+    + (* types *)
+      pose proof (stmt_ok_in p w _ Hpw Hi) as Hok. cbn in Hok. unfold yitems_ok in Hok. apply andb_true_iff in Hok as [_ Hnd].
+      apply nodup_s_NoDup in Hnd. pose proof (wsitem_lex_in p w _ Hpw Hi) as Hl. cbn in Hl. apply andb_true_iff in Hl as [_ Hl].
+      assert (Hall : map (fun y => match y with YField f => f_name f | YCont c _ _ => c end) ys
+                     = flat_map (fun y => [match y with YField f => f_name f | YCont c _ _ => c end]) ys)
+        by (induction ys; cbn; auto; f_equal; auto).
+      rewrite Hall in Hnd. unfold type_item, bv_members_item. cbn [map nodup_b forallb]. rewrite !andb_true_r. apply andb_true_iff. split.
+      * apply NoDup_nodup_s. rewrite map_app, map_flat_map'. apply NoDup_app_intro; [apply sys_names_nodup | |].
+        -- eapply NoDup_flat_sub; [|exact Hnd]. intros y. destruct y; cbn; rewrite ?fd_of_field_name; auto.
+        -- intros x H1 H2. apply sys_name_not_lex in H1. apply in_flat_map in H2 as (y & Hy & H2). destruct y; [|destruct H2].
+           destruct H2 as [<- | []]. rewrite fd_of_field_name in H1. rewrite forallb_forall in Hl. specialize (Hl _ Hy). cbn in Hl. unfold field_lex in Hl. congruence.
+      * apply NoDup_nodup_s. rewrite map_flat_map'. eapply NoDup_flat_sub; [|exact Hnd]. intros y. destruct y; cbn; auto.
+    + (* views *)
+      pose proof (stmt_ok_in p w _ Hpw Hi) as Hok. cbn in Hok. unfold view_ok in Hok.
+      rewrite !andb_true_iff in Hok. destruct Hok as [[[[[[[[[Hnd _] _] _] Hkeys] Hpkf] Hccf] _] _] _].
+      apply nodup_s_NoDup in Hnd. apply nodup_s_NoDup in Hkeys.
+      pose proof (wsitem_lex_in p w _ Hpw Hi) as Hl. cbn in Hl. apply andb_true_iff in Hl as [_ Hl].
+      assert (Hlexn : forall n, In n (map vitem_name (v_items v)) -> lex_ident n = true).
+      { intros n Hn. apply in_map_iff in Hn as (x & <- & Hx). rewrite forallb_forall in Hl. auto. }
+      pose proof (found_weaken _ _ _ Hpkf) as Fpk. pose proof (found_weaken _ _ _ Hccf) as Fcc.
+      unfold view_item, bv_members_item. apply NoDup_nodup_s. rewrite !map_app.
+      rewrite (view_key_names _ _ _ _ _ Fpk), (view_key_names _ _ _ _ _ Fcc). cbn [map fd_name fd_sysf].
+      rewrite map_map. rewrite (map_ext _ vitem_name) by (intros; apply vfd_val_name).
+      rewrite app_assoc. apply NoDup_app_intro; auto.
+      * constructor.
+        -- intros Hq. apply in_map_iff in Hq as (x & E & Hx). apply filter_In in Hx as [Hx _].
+           assert (lex_ident "sys.QName" = true) by (rewrite <- E; apply Hlexn; apply in_map; auto). discriminate.
+        -- apply NoDup_map_filter; auto.
+      * intros x H1 [<- | H2].
+        -- assert (lex_ident "sys.QName" = true); [|discriminate]. apply Hlexn.
+           apply in_app_iff in H1 as [H1 | H1]; [apply (found_is_item _ _ Fpk _ H1) | apply (found_is_item _ _ Fcc _ H1)].
+        -- apply in_map_iff in H2 as (y & <- & Hy). apply filter_In in Hy as [_ Hy]. apply andb_true_iff in Hy as [Hy1 Hy2].
+           apply negb_true_iff in Hy1, Hy2. apply in_app_iff in H1 as [H1 | H1]; apply mem_s_In in H1; congruence.
+Qed.
+
+(* ---- bv_names: every name is what the lexer delivered, or a generated name within the guard ---- *)
+Hypothesis Hmax : appdef_max_ident_len = 255%N.
+
+Definition okc (x : ascii) : bool := is_first x || is_digit x.
+
+Lemma all_chars_app f s1 s2 : all_chars f (s1 ++ s2) = all_chars f s1 && all_chars f s2.
+Proof. induction s1 as [|c r IH]; cbn; auto. rewrite IH. apply andb_assoc. Qed.
+
+Lemma all_chars_impl (f g : ascii -> bool) s : (forall c, f c = true -> g c = true) -> all_chars f s = true -> all_chars g s = true.
+Proof. intros H. induction s as [|c r IH]; cbn; auto. intros H'. apply andb_true_iff in H' as [Hc Hr]. rewrite (H c Hc), IH; auto. Qed.
+
+Lemma lex_parts s : lex_ident s = true ->
+  exists c r, s = String c r /\ is_first c = true /\ all_chars okc r = true /\ (N.of_nat (String.length s) <=? 255)%N = true.
+Proof.
+  unfold lex_ident. destruct s as [|c r]; [discriminate|]. intros H. rewrite !andb_true_iff in H. destruct H as [[Hc Hr] Hl].
+  exists c, r. repeat split; auto.
+  - unfold is_first. rewrite Hc. auto.
+  - eapply all_chars_impl; [|exact Hr]. intros x Hx. unfold okc, is_first.
+    apply orb_true_iff in Hx as [Hx | Hx]; [apply orb_true_iff in Hx as [Hx | Hx]|]; rewrite Hx; rewrite ?orb_true_r; auto.
+Qed.
+
+Lemma lex_valid s : lex_ident s = true -> valid_ident s = true.
+Proof.
+  intros H. destruct (lex_parts s H) as (c & r & -> & Hc & Hr & Hl). unfold valid_ident. fold okc. rewrite Hc, Hr, Hmax, Hl. auto.
+Qed.
+
+Lemma valid_app s t : lex_ident s = true -> all_chars okc t = true ->
+  (N.of_nat (String.length (s ++ t)) <=? appdef_max_ident_len)%N = true -> valid_ident (s ++ t) = true.
+Proof.
+  intros H Ht Hl. destruct (lex_parts s H) as (c & r & -> & Hc & Hr & _). unfold valid_ident. fold okc.
+  cbn [append]. rewrite Hc, all_chars_app, Hr, Ht. cbn [andb]. exact Hl.
+Qed.
+
+Lemma digits_okc (u : Decimal.uint) : all_chars okc (DecimalString.NilEmpty.string_of_uint u) = true.
+Proof. induction u; cbn; auto. Qed.
+
+Lemma r_num_okc n : all_chars okc (r_num n) = true.
+Proof. unfold r_num, DecimalString.NilZero.string_of_uint. destruct (N.to_uint n); try reflexivity; apply digits_okc. Qed.
+
+Lemma two_digits_okc n : all_chars okc (two_digits n) = true.
+Proof. unfold two_digits. destruct (n <? 10)%N; [cbn; apply r_num_okc | apply r_num_okc]. Qed.
+
+Lemma lex_okc_all s : lex_ident s = true -> all_chars okc s = true.
+Proof.
+  intros H. destruct (lex_parts s H) as (c & r & -> & Hc & Hr & _). cbn. unfold okc at 1. rewrite Hc, Hr. auto.
+Qed.
+
+Lemma uniqs_from_names its : titems_lex its = true -> forall c u, In u (uniqs_from c its) -> all_chars okc (ud_name u) = true.
+Proof.
+  induction its as [|it r IH]; intros Hl c u H; [destruct H|]. destruct (titems_lex_cons _ _ Hl) as [Hr Hit].
+  destruct it as [f | n refs nn | c0 t' | [cn|] fs]; cbn [uniqs_from] in H; try (eapply IH; eauto; fail).
+  - destruct H as [<- | H]; [cbn; apply lex_okc_all; auto | eapply IH; eauto].
+  - destruct H as [<- | H]; [cbn; apply two_digits_okc | eapply IH; eauto].
+Qed.
+
+Lemma uniqs_run_names ls : (forall l, In l ls -> titems_lex (snd l) = true) ->
+  forall c u, In u (uniqs_run c ls) -> all_chars okc (ud_name u) = true.
+Proof.
+  induction ls as [|l r IH]; intros Hl c u H; [destruct H|]. cbn [uniqs_run] in H. apply in_app_iff in H as [H | H].
+  - eapply uniqs_from_names; [apply Hl; left; auto | eauto].
+  - eapply IH; eauto. intros; apply Hl; right; auto.
+Qed.
+
+Lemma uniqs_chain_names ls u : (forall l, In l ls -> titems_lex (snd l) = true) -> In u (uniqs_chain m ls) ->
+  all_chars okc (ud_name u) = true.
+Proof.
+  intros Hl. unfold uniqs_chain. destruct (m_uniq_per_type m); [apply uniqs_run_names; auto|]. intros H.
+  apply in_flat_map in H as (l & Hin & H). eapply uniqs_from_names; [apply Hl; eauto | eauto].
+Qed.
+
+Lemma sys_fields_sys k f : In f (sys_fields k) -> fd_sys f = true.
+Proof. destruct k; cbn; intros H; repeat (destruct H as [<- | H]; [reflexivity|]); destruct H. Qed.
+
+Lemma struct_names_ok pn wq t k sg ls :
+  lex_ident pn = true -> lex_ident (t_name t) = true -> (forall l, In l ls -> Declared l k) ->
+  gen_names_short d = true -> In (struct_item m pn wq t k sg ls) d ->
+  bv_names_item (struct_item m pn wq t k sg ls) = true.
+Proof.
+  intros Hpn Ht Hd Hg Hin. unfold gen_names_short in Hg. rewrite forallb_forall in Hg. specialize (Hg _ Hin).
+  unfold struct_item in *. cbn [bv_names_item item_key] in *. apply andb_true_iff in Hg as [_ Hgu].
+  assert (Hlx : forall l, In l ls -> titems_lex (snd l) = true) by (intros l Hl; apply (declared_table_lex l k (Hd l Hl))).
+  unfold bv_names_item. cbn [item_key]. rewrite !andb_true_iff. repeat split.
+  - unfold valid_qname. cbn [fst snd]. rewrite !lex_valid; auto.
+  - rewrite forallb_app. apply andb_true_iff. split; apply forallb_forall; intros f Hf.
+    + rewrite (sys_fields_sys k f Hf). auto.
+    + apply orb_true_iff. right. apply lex_valid. apply in_flat_map in Hf as (l & Hl & Hf).
+      destruct (titems_lex_facts _ (Hlx l Hl)) as (I1 & _). apply I1. rewrite <- fnames_fields. apply in_map; auto.
+  - apply forallb_forall. intros c Hc. apply lex_valid. apply in_flat_map in Hc as (l & Hl & Hc).
+    destruct (titems_lex_facts _ (Hlx l Hl)) as (_ & I2 & _). apply I2. rewrite <- ctnames_conts. apply in_map; auto.
+  - apply forallb_forall. intros u Hu. rewrite forallb_forall in Hgu. specialize (Hgu u Hu). cbn [snd] in *.
+    unfold uniq_entity in *. apply valid_app; auto. rewrite all_chars_app. rewrite (uniqs_chain_names ls u Hlx Hu). reflexivity.
+Qed.
+
+Lemma table_lex_name t : table_lex t = true -> lex_ident (t_name t) = true.
+Proof. rewrite table_lex_eq. intros H. apply andb_true_iff in H. tauto. Qed.
+
+Theorem bv_names_proved : gen_names_short d = true -> bv_names d = true.
+Proof.
+  intros Hg. unfold bv_names. apply forall_compiled.
+  - intros p w Hpw. destruct (ws_lex_in p w Hpw) as [Hw Hp]. unfold ws_lex in Hw. rewrite !andb_true_iff in Hw. destruct Hw as [[Hn _] _].
+    unfold ws_item. cbv zeta. unfold bv_names_item, valid_qname. cbn [item_key fst snd]. rewrite !lex_valid; auto.
+  - intros p w Hpw Hab. destruct (ws_lex_in p w Hpw) as [Hw Hp]. unfold ws_lex in Hw. rewrite !andb_true_iff in Hw. destruct Hw as [[Hn _] Hd].
+    pose proof (in_compiled_desc a m p w Hpw Hab) as Hin. unfold gen_names_short in Hg. rewrite forallb_forall in Hg. specialize (Hg _ Hin).
+    unfold desc_item in *. unfold bv_names_item. cbn [item_key fst snd forallb] in *. rewrite !andb_true_r in *.
+    apply andb_true_iff. split.
+    + unfold valid_qname. cbn [fst snd]. rewrite (lex_valid _ Hp). cbn [andb]. unfold desc_name in *. apply valid_app; auto.
+    + rewrite forallb_app. apply andb_true_iff. split; apply forallb_forall; intros f Hf.
+      * rewrite (sys_fields_sys _ f Hf). auto.
+      * apply in_map_iff in Hf as (fl & <- & Hfl). apply orb_true_iff. right. rewrite fd_of_field_name. apply lex_valid.
+        destruct (w_desc w) as [fs|]; [|destruct Hfl]. rewrite forallb_forall in Hd. apply (Hd _ Hfl).
+  - intros p w i it Hpw Hi Hin. destruct (ws_lex_in p w Hpw) as [_ Hp]. pose proof (wsitem_lex_in p w _ Hpw Hi) as Hl.
+    pose proof Hin as Hin0. destruct (stmt_cases _ _ _ _ Hin).
+    + cbn in Hl. apply struct_names_ok; auto; [apply table_lex_name; auto | eapply lists_declared_root; eauto | eapply in_compiled_stmt; eauto].
+    + cbn in Hl. apply struct_names_ok; auto;
+        [apply table_lex_name; eapply table_lex_nested; eauto; apply nested_tables_Nested; auto
+        | eapply lists_declared_nested; eauto | eapply in_compiled_stmt; eauto].
+    + cbn in Hl. apply andb_true_iff in Hl as [Hn Hys]. unfold type_item, bv_names_item. cbn [item_key forallb]. rewrite andb_true_r.
+      rewrite !andb_true_iff. repeat split.
+      * unfold valid_qname. cbn [fst snd]. rewrite !lex_valid; auto.
+      * rewrite forallb_app. apply andb_true_iff. split; apply forallb_forall; intros f Hf.
+        -- rewrite (sys_fields_sys _ f Hf). auto.
+        -- apply in_flat_map in Hf as (y & Hy & Hf). destruct y; [|destruct Hf]. destruct Hf as [<- | []].
+           apply orb_true_iff. right. rewrite fd_of_field_name. apply lex_valid. rewrite forallb_forall in Hys. apply (Hys _ Hy).
+      * apply forallb_forall. intros c Hc. apply in_flat_map in Hc as (y & Hy & Hc). destruct y; [destruct Hc|]. destruct Hc as [<- | []].
+        cbn. apply lex_valid. rewrite forallb_forall in Hys. apply (Hys _ Hy).
+    + cbn in Hl. apply andb_true_iff in Hl as [Hn Hvs]. unfold view_item, bv_names_item. cbn [item_key]. apply andb_true_iff. split.
+      * unfold valid_qname. cbn [fst snd]. rewrite !lex_valid; auto.
+      * assert (Hk : forall part l, forallb (fun f => fd_sys f || valid_ident (fd_name f))
+                  (flat_map (fun n => map (vfd_key (m_view_refs m) (p_name p) part) (opt_list (find_vitem v n))) l) = true).
+        { intros part l. apply forallb_flat. intros n _. unfold find_vitem. destruct (find _ (v_items v)) as [x|] eqn:Ef; [|reflexivity].
+          apply find_some in Ef as [Hx _]. cbn [opt_list map forallb]. rewrite andb_true_r. apply orb_true_iff. right. apply lex_valid.
+          rewrite forallb_forall in Hvs. specialize (Hvs _ Hx). destruct x; exact Hvs. }
+        rewrite !forallb_app, !Hk. cbn [andb forallb fd_sys fd_sysf orb]. rewrite forallb_map. apply forallb_forall. intros x Hx.
+        apply filter_In in Hx as [Hx _]. apply orb_true_iff. right. rewrite vfd_val_name. apply lex_valid. rewrite forallb_forall in Hvs. apply (Hvs _ Hx).
+    + cbn in Hl. unfold proj_item, bv_names_item, valid_qname. cbn [item_key fst snd]. rewrite !lex_valid; auto.
+    + cbn in Hl. unfold func_item, bv_names_item, valid_qname. cbn [item_key fst snd]. rewrite !lex_valid; auto.
+    + cbn in Hl. unfold bv_names_item, valid_qname. cbn [item_key fst snd]. rewrite !lex_valid; auto.
+    + cbn in Hl. unfold rate_item, bv_names_item, valid_qname. cbn [item_key fst snd]. rewrite !lex_valid; auto.
+    + cbn in Hl. unfold limit_item, bv_names_item, valid_qname. cbn [item_key fst snd]. rewrite !lex_valid; auto.
+Qed.
+
+(* ---- all clauses ---- *)
+(* What the parser does not check and the builder does - the number of members of a type and the
+   length of the two kinds of generated names (<workspace>Descriptor, <table>$uniques$<n>) - and the
+   one clause left unproved (no unique's fields contain another's) are explicit guards. *)
+Definition guards (d0 : defn) : bool := gen_names_short d0 && bv_limits d0 && bv_overlap d0.
+
+Theorem builder_valid_proved : guards d = true -> builder_valid d = true.
+Proof.
+  unfold guards, builder_valid. intros H. rewrite !andb_true_iff in H. destruct H as [[Hn Hl] Ho].
+  rewrite bv_keys_proved, (bv_names_proved Hn), Hl, bv_members_proved, Ho, bv_refs_proved, bv_views_proved, bv_funcs_proved,
+    bv_projs_proved, bv_limit_proved, bv_acl_proved, bv_ws_proved. reflexivity.
+Qed.
+
 End Clauses.
+
+(* within the guards a well-formed, lexically sound schema is compiled (whatever `recovers`), and what
+   is handed out passes the validation model *)
+Theorem compile16_compiles_proved r a :
+  appdef_max_ident_len = 255%N -> wf a = true -> lexical a = true -> no_unique_collision a Go = true ->
+  guards (compile_items a Go) = true ->
+  compile16_with r a = VCompiled (compile_items a Go) /\ builder_valid (compile_items a Go) = true.
+Proof.
+  intros Hmax Hwf Hlex Hc Hg. pose proof (builder_valid_proved a Go Hwf Hlex Hc Hmax Hg) as Hv.
+  unfold compile16_with. rewrite Hwf, Hc, Hv. auto.
+Qed.
+
+Theorem compile16_accepts_valid_proved r a d : compile16_with r a = VCompiled d -> builder_valid d = true /\ wf a = true.
+Proof.
+  unfold compile16_with, refused. destruct (wf a) eqn:E; [|discriminate].
+  destruct (no_unique_collision a Go && builder_valid (compile_items a Go)) eqn:Ev; [|destruct r; discriminate].
+  intros H. inversion H; subst. apply andb_true_iff in Ev. tauto.
+Qed.
+
+(* with the recover in buildAppDefs the compiler model never panics, on any schema *)
+Theorem compile16_total_proved : parser_recovers_builder_panics = true -> forall a, compile16 a <> VPanic.
+Proof.
+  intros Hr a. unfold compile16, compile16_with, refused. rewrite Hr.
+  destruct (wf a); [|discriminate]. destruct (no_unique_collision a Go && builder_valid (compile_items a Go)); discriminate.
+Qed.
